@@ -672,7 +672,10 @@ func (p *Proxy) Unregister(info ServerInfo) bool {
 // in parallel and waits until all players have been disconnected.
 func (p *Proxy) DisconnectAll(reason component.Component) {
 	p.muP.RLock()
-	players := p.playerIDs
+	players := make([]*connectedPlayer, 0, len(p.playerIDs))
+	for _, player := range p.playerIDs {
+		players = append(players, player)
+	}
 	p.muP.RUnlock()
 
 	var wg sync.WaitGroup
@@ -799,10 +802,9 @@ func (p *Proxy) PlayerCount() int {
 // Players returns all players on the proxy.
 func (p *Proxy) Players() []Player {
 	p.muP.RLock()
-	playerIDs := p.playerIDs
-	p.muP.RUnlock()
-	pls := make([]Player, 0, len(playerIDs))
-	for _, player := range playerIDs {
+	defer p.muP.RUnlock()
+	pls := make([]Player, 0, len(p.playerIDs))
+	for _, player := range p.playerIDs {
 		pls = append(pls, player)
 	}
 	return pls
